@@ -32,6 +32,8 @@ FAULTS = {
     "absent-stream-two-tests": None,  # two adjacent entries for a stream id that is not in the data
     "absent-stream": None,  # a healthy entry configured for a stream id that is not in the data
     "no-axes-stream": None,
+    "same-unknown-module-twice": None,  # the SAME unknown module name on two streams, naming tests that exist in qartod
+    "needs-time": ("qartod", "rate_of_change_test", dict(threshold=1)),   # (front ends without a time axis only) a test that needs times
     "off-time-stream": None,  # (xarray:twodims only) a time-dependent test on a variable that is not on the time dimension  # (xarray:twodims only) a position test on a variable that lives on another dimension without lat/lon
 }
 PLACEMENTS = ("same-stream", "other-stream", "other-context", "other-context-window")
@@ -86,6 +88,13 @@ def make_contexts(case):
         if f == "no-axes-stream":
             others.setdefault("u", []).append(("qartod", "location_test", dict(bbox=[-10, -10, 30, 10])))
             fault_keys.append(("u", "location_test"))
+            continue
+        if f == "same-unknown-module-twice":
+            e = ("qartood", "rate_of_change_test", dict(threshold=1))
+            same.append(e)
+            others.setdefault("w", []).append(e)
+            others.setdefault("w", []).append(("qartood", "flat_line_test", dict(suspect_threshold=60, fail_threshold=120)))
+            fault_keys.extend([("v", "rate_of_change_test"), ("w", "rate_of_change_test"), ("w", "flat_line_test")])
             continue
         if f == "off-time-stream":
             others.setdefault("u", []).append(("qartod", "rate_of_change_test", dict(threshold=1)))
@@ -238,7 +247,7 @@ def fault_sets(maxf):
 def tasks(tier):
     ts = []
     ns = (4,) if tier == "quick" else (3, 4, 5)
-    for fe in S.FRONTENDS + ("numpy:dictnotime", "xarray:twodims"):
+    for fe in S.FRONTENDS + ("numpy:dictnotime", "xarray:twodims", "xarray:notime"):
         ts.append((fe, 30, ["gross", "spike"], 1))
         for h in ("gross", "spike"):
             ts.append((fe, 6, [h], "many"))
@@ -275,7 +284,11 @@ def run_task(task, acc):
                 continue
             if ("no-axes-stream" in combo or "off-time-stream" in combo) and fe != "xarray:twodims":
                 continue
-            real = [f for f in combo if f not in ("absent-stream", "no-axes-stream", "absent-stream-two-tests", "off-time-stream")]
+            if "needs-time" in combo and fe not in ("numpy:dictnotime", "xarray:notime"):
+                continue
+            if "same-unknown-module-twice" in combo and fe in ("numpy:nd", "qcconfig"):
+                continue
+            real = [f for f in combo if f not in ("absent-stream", "no-axes-stream", "absent-stream-two-tests", "off-time-stream", "same-unknown-module-twice")]
             # (a) all in the same stream, every order relative to the healthy entries
             k = len(hs) + len(real)
             perms = list(itertools.permutations(range(k))) if len(real) <= 2 else [tuple(range(k)), tuple(reversed(range(k)))]
@@ -293,6 +306,6 @@ def run_task(task, acc):
                 if fe in ("numpy:nd", "qcconfig") and place == "other-stream":
                     continue
                 yield dict(fe=fe, n=n, healthy=hs, faults=[[f, place] for f in combo], order=[])
-                if len(real) >= 2 and combo[0] not in ("absent-stream", "no-axes-stream", "absent-stream-two-tests", "off-time-stream"):
+                if len(real) >= 2 and combo[0] not in ("absent-stream", "no-axes-stream", "absent-stream-two-tests", "off-time-stream", "same-unknown-module-twice"):
                     yield dict(fe=fe, n=n, healthy=hs, faults=[[combo[0], "same-stream"]] + [[f, place] for f in combo[1:]], order=[])
     run_cases(acc, gen(), check_case)
